@@ -68,6 +68,8 @@ def load_findings(prop):
                     continue
                 e = json.loads(line)
                 if e.get("property") == prop:
+                    # an entry of the (development-only) extra file replaces the listed entry with the same id
+                    out = [x for x in out if x.get("id") != e.get("id")]
                     out.append(e)
     return out
 
